@@ -5,6 +5,7 @@ from typing import Any, Type, Union, cast
 from typing_extensions import Literal
 
 from mashumaro.core.const import Sentinel
+from mashumaro.helper import pass_through
 from mashumaro.types import SerializationStrategy
 
 __all__ = ["Dialect"]
@@ -40,6 +41,14 @@ class Dialect:
         for key, value in other.serialization_strategy.items():
             if isinstance(value, SerializationStrategy):
                 serialization_strategy[key] = value
+            elif serialization_strategy.get(key) is pass_through:
+                # a one-way registration keeps the base dialect's
+                # pass_through for the direction it leaves open
+                serialization_strategy[key] = {
+                    "serialize": pass_through,
+                    "deserialize": pass_through,
+                    **value,
+                }
             elif isinstance(
                 serialization_strategy.get(key), SerializationStrategy
             ):
